@@ -543,6 +543,14 @@ def monitor_c11(ctx):
                          'calls': [['eval', t, 0, 1000, 7], ['eval', t, 1, 1000, 7], ['eval', t, 0, 1000, 7], ['eval', t, 1, 1000, 7], ['parse', t]]})
             pays.append({'heap': f'(U (M 1 (S:69 D:0:0:0:c)) (M 2 (S:{hx(nm)} H:{hostfn})))', 'cache': 'none', 'also_cached': True,
                          'calls': [['eval', t, 1, 1000, 7], ['eval', t, 0, 1000, 7], ['eval', t, 1, 1000, 7]]})
+    # an abandoned generator is discarded WHILE a later list_names call is being consumed (with and without calls in between)
+    for pre, k in (('total(price, qty)', '1'), ('a + [b, c', '2'), ('f(a, [b, {c: d', '3'), ('x = (a,\nb', '1')):
+        for t in ('alpha + beta * gamma', 'f(a,\n b,\n c)', 'u\nv\nw'):
+            for how in ('close', 'del'):
+                pays.append({'heap': '(U (M 1 (S:69 D:0:0:0:c)))', 'cache': 'none',
+                             'calls': [['names', pre, k], ['names2', t, 1, how], ['names', t, 'all'], ['parse', t]]})
+                pays.append({'heap': '(U (M 1 (S:69 D:0:0:0:c)))', 'cache': 'none',
+                             'calls': [['eval', '1 + 1', 0, 1000, 7], ['names', pre, k], ['eval', '2 + 2', 0, 1000, 7], ['names2', t, 2, how], ['names', t, 'all']]})
     a = _run('c11', 'c11', pays, 'histories of parse / eval / list_names (partially consumed) / host mutation on one SqParser: every call '
              'repeated on a freshly constructed SqParser with deep-copied equal arguments; result / exception class and message compared')
     b = _run('c11_repeat', 'c11_repeat', [{'define': 'f = n => n + 1 + 1 + 1 + 1 + 1 + 1 + 1 + 1 + 1 + 1', 'call': 'f(1)', 'N': 30, 'times': 9}],
